@@ -107,6 +107,12 @@ def configs(tier, rng):
                       prs=30, pdt=70, seed=rng.randint(0, 999)))
     C.append(dict(base, NP=4, NL=1, TEND=24, MAXITER=12, MAXR=12, CRASH=False, oracle='restarts_only', restol=1e-9, prs=0, pdt=0, seed=1,
                   forced=[[16, 0, 2]]))
+    # space-time parallel: NP ranks in time x NODES ranks across the collocation nodes (node-parallel sweeper / transfer under the
+    # MPI controller); Gauss-Seidel coupling keeps sends pending across sweeps
+    C.append(dict(base, NP=2, NL=1, NODES=2, TEND=16, MAXITER=8, JAC=False, oracle=False, restol=1e-8, seed=0))
+    C.append(dict(base, NP=2, NL=1, NODES=3, TEND=16, MAXITER=8, JAC=True, oracle=False, restol=1e-8, seed=0))
+    C.append(dict(base, NP=3, NL=1, NODES=2, TEND=24, JAC=False, seed=rng.randint(0, 999), pconv=45))
+    C.append(dict(base, NP=2, NL=2, NODES=2, TEND=16, MAXITER=8, PRED='pfasst_burnin', oracle=False, restol=1e-7, seed=0))
     # real residuals instead of the oracle
     C.append(dict(base, NP=3, NL=1, TEND=24, MAXITER=8, oracle=False, restol=1e-6, seed=0))
     C.append(dict(base, NP=3, NL=2, TEND=24, MAXITER=8, PRED='pfasst_burnin', oracle=False, restol=1e-7, seed=0))
@@ -130,6 +136,8 @@ def compare(cfg, ser, m):
     if m.get('deadlock'):
         d.append(('deadlock', str(m.get('msg') or m.get('failed'))[:200]))
         return d
+    if m.get('node_ranks_disagree'):
+        d.append(('node_ranks_disagree', 'the ranks that share one time step do not report the same steps / values'))
     if (ser['exc'] or 'none') != (m['exc'] or 'none'):
         d.append(('exception', f"serial {ser['exc']} / MPI {m['exc']} {m.get('msg', '')[:150]}"))
         return d
